@@ -8,13 +8,22 @@ import sys
 
 def main(argv):
     logging.disable(logging.CRITICAL)
-    if len(argv) >= 2 and argv[0] == "--replay":
+    if len(argv) >= 2 and argv[0] in ("--replay", "--replay-with-history"):
         with open(argv[1]) as fh:
             rec = json.load(fh)
         mod = importlib.import_module(f"vf.props.{rec['property']}")
+        status_ok = "REPRODUCED"
+        if argv[0] == "--replay-with-history":
+            # state kept by the library between calls: process the recorded history first, in this fresh process
+            status_ok = "REPRODUCED-WITH-HISTORY"
+            for h in rec.get("history", []):
+                try:
+                    mod.replay(h)
+                except BaseException:
+                    pass
         fails = mod.replay(rec["input"])
         sigs = sorted({f["signature"] for f in fails})
-        status = "REPRODUCED" if sigs else "NOT-REPRODUCED"
+        status = status_ok if sigs else "NOT-REPRODUCED"
         print("REPLAY-RESULT " + json.dumps({"status": status, "signatures": sigs}))
         for f in fails[:5]:
             print("  ", f["signature"], "|", f.get("detail", "")[:300])
